@@ -179,11 +179,8 @@ def setState (l : L) (a : Addr) (k : String) (v : Bytes) : L :=
   let l2 := putAcct l1 a { acc with dirtyState := KV.set acc.dirtyState k v }
   { l2 with changes := l2.changes ++ [.storage a k prev] }
 
-/-- `AddState` (not journaled; the committed value is loaded first, as in `SetState`) -/
-def addState (l : L) (a : Addr) (k : String) (v : Bytes) : L :=
-  let (l1, _) := getState l a k
-  let acc := (KV.get l1.accounts a).getD {}
-  putAcct l1 a { acc with dirtyState := KV.set acc.dirtyState k v }
+/-- `AddState`: loads the committed value and records a change, exactly like `SetState` -/
+def addState (l : L) (a : Addr) (k : String) (v : Bytes) : L := setState l a k v
 
 def getBalance (l : L) (a : Addr) : L × Int :=
   let (l1, acc) := getOrCreate l a
